@@ -535,6 +535,8 @@ fn main() {
             Ok(s) => writeln!(out, "{}", s).unwrap(),
             Err(_) => writeln!(out, "PANIC").unwrap(),
         }
+        // flush per line: a later operation that hangs or aborts must not lose earlier results
+        out.flush().unwrap();
     }
     out.flush().unwrap();
 }
